@@ -6,6 +6,27 @@ import NeumannModel.Codec.Props
 -/
 namespace Neumann.Snap
 
+/-! ### in-place overwrite -/
+
+/-- writing from offset 0 replaces the head and keeps the rest -/
+theorem overlay_zero (c bs : Bytes) : overlay c 0 bs = bs ++ c.drop bs.length := by
+  simp [overlay]
+
+/-- writing right behind a prefix of length `off` that is already there -/
+theorem overlay_after_prefix (pre rest bs : Bytes) :
+    overlay (pre ++ rest) pre.length bs = pre ++ bs ++ rest.drop bs.length := by
+  simp [overlay, List.drop_append]
+
+/-- writing at the end of the file appends -/
+theorem overlay_at_end (c bs : Bytes) : overlay c c.length bs = c ++ bs := by
+  simp [overlay]
+
+/-- what is written survives as a whole at its offset when the offset is inside the file -/
+theorem overlay_length (c : Bytes) (off : Nat) (bs : Bytes) :
+    (overlay c off bs).length = max c.length (off + bs.length) := by
+  simp only [overlay, List.length_append, List.length_take, List.length_replicate, List.length_drop]
+  omega
+
 /-! ### header -/
 
 theorem decode_encode_append (h : Header) (hw : h.WF) (rest : Bytes) :
